@@ -410,3 +410,293 @@ Qed.
 
 Theorem I1_reach s : reach s -> I1 s.
 Proof. apply invariant_rule; [exact I1_init | intros s0 a s1; apply I1_step]. Qed.
+
+(* ---------- Inv2 (lock bit = owners, token discipline) is inductive ---------- *)
+Lemma Forall_get (P : thread -> Prop) s :
+  Forall P (thr s) <-> (forall j th, get_thread s j = Some th -> P th).
+Proof.
+  split.
+  - intros H j th E. eapply Forall_nth_error; eauto.
+  - intros H. apply Forall_forall. intros th Hin. apply In_nth_error in Hin.
+    destruct Hin as (j & E). eapply H; eauto.
+Qed.
+
+Lemma odd_even_succ w : Z.even w = true -> Z.odd (w + 1) = true.
+Proof. intros H. rewrite Z.odd_add. rewrite <- Z.negb_even, H. reflexivity. Qed.
+Lemma odd_add2 w : Z.odd (w + 2) = Z.odd w.
+Proof. rewrite Z.odd_add. cbn. destruct (Z.odd w); reflexivity. Qed.
+Lemma odd_sub2 w : Z.odd (w - 2) = Z.odd w.
+Proof. replace w with ((w - 2) + 2) at 2 by lia. rewrite odd_add2. reflexivity. Qed.
+Lemma odd_pred w : Z.odd w = true -> Z.odd (w - 1) = false.
+Proof. intros H. replace w with ((w - 1) + 1) in H by lia. rewrite Z.odd_add in H. cbn in H.
+  destruct (Z.odd (w - 1)); auto. Qed.
+Lemma even_not_odd w : Z.odd w = false -> Z.even w = true.
+Proof. intros H. rewrite <- Z.negb_odd, H. reflexivity. Qed.
+Lemma odd_not_even w : Z.even w = false -> Z.odd w = true.
+Proof. intros H. rewrite <- Z.negb_even, H. reflexivity. Qed.
+Lemma odd_of_even w : Z.even w = true -> Z.odd w = false.
+Proof. intros H. rewrite <- Z.negb_even, H. reflexivity. Qed.
+
+Definition upre (u : upc) : nat := b2n (preclear u).
+Definition rpre (r : ures) : nat := match r with UNext u => upre u | UFin _ => 0%nat end.
+
+(** a thread that differs from a [thP]-thread only by having been woken is still [thP] *)
+Lemma thP_wake th k : thP th -> main th = Susp k -> thP (set_main th (LockRead k)).
+Proof.
+  intros [E T L Q] Hm. constructor; unfold npre, set_main in *; cbn [main cbs own] in *; auto.
+  - exact I.
+  - rewrite Hm in T. cbn [mtok] in *. exact T.
+Qed.
+
+Lemma nown_own_le s t th : get_thread s t = Some th -> (b2n (own th) <= nown s)%nat.
+Proof. intros H. unfold nown. apply (lsum_nth_le (fun th => b2n (own th)) _ _ _ H). Qed.
+
+Ltac six := split; [|split; [|split; [|split; [|split]]]].
+
+Lemma ustep_Inv2 s t u s1 r th :
+  Inv2 s -> get_thread s t = Some th -> (preclear u = true -> own th = true) ->
+  ustep s t u = Some (s1, r) ->
+  exists th1, get_thread s1 t = Some th1 /\ cbs th1 = cbs th /\
+    (main th1 = main th \/ exists k, main th = Susp k /\ main th1 = LockRead k) /\
+    ((own th1 = own th /\ rpre r = upre u) \/ (own th1 = false /\ rpre r = 0%nat /\ upre u = 1%nat)) /\
+    M s1 /\
+    (forall j thj, j <> t -> get_thread s1 j = Some thj -> thP thj).
+Proof.
+  intros [HM HP] Ht Hown Hu. rewrite Forall_get in HP. unfold M in *.
+  destruct u as [nf|nf w|nf w|nf|nf y|nf y]; cbn [ustep] in Hu.
+  - repeat break_match_hyp Hu; ufin Hu; exists th; six; eauto; try lia.
+  - break_match_hyp Hu; ufin Hu.
+    + rewrite (clear_own_at _ _ th) by exact Ht. exists (set_own th false).
+      rewrite (get_set_thread_eq _ _ _ th) by exact Ht.
+      pose proof (nown_set_thread (set_mword s 0) t th (set_own th false) Ht) as N.
+      rewrite (Hown eq_refl) in *. apply Z.eqb_eq in Heqb. rewrite Heqb in HM.
+      change (nown (set_mword s 0)) with (nown s) in N.
+      six; auto.
+      * cbn [own set_own mword set_mword set_thread set_thr b2n Z.odd] in *. lia.
+      * intros j thj Nj E. rewrite get_set_thread_neq in E by congruence. eapply HP; eauto.
+    + exists th; six; eauto; try lia.
+  - break_match_hyp Hu; ufin Hu; exists th; six; eauto; try lia.
+    all: try (apply Z.eqb_eq in Heqb; subst w; cbn [mword set_mword]; rewrite odd_sub2; exact HM).
+  - destruct (mq s) as [|z q] eqn:Hq; ufin Hu; exists th; six; eauto; try lia.
+  - ufin Hu. rewrite (clear_own_at _ _ th) by exact Ht. exists (set_own th false).
+    rewrite (get_set_thread_eq _ _ _ th) by exact Ht.
+    pose proof (nown_set_thread (set_mword s (mword s - 1)) t th (set_own th false) Ht) as N.
+    pose proof (nown_own_le s t th Ht) as Le.
+    rewrite (Hown eq_refl) in *.
+    change (nown (set_mword s (mword s - 1))) with (nown s) in N.
+    assert (Od : Z.odd (mword s) = true).
+    { destruct (Z.odd (mword s)); auto. cbn [b2n] in *. lia. }
+    six; auto.
+    * cbn [own set_own mword set_mword set_thread set_thr] in *. rewrite (odd_pred _ Od).
+      rewrite Od in HM. cbn [b2n] in *. lia.
+    * intros j thj Nj E. rewrite get_set_thread_neq in E by congruence. eapply HP; eauto.
+  - destruct (wake s y) as [s2|] eqn:Hw; [|discriminate]. ufin Hu.
+    apply wake_spec in Hw. destruct Hw as (thx & k & Hx & Hm & ->).
+    pose proof (nown_set_thread s y thx (set_main thx (LockRead k)) Hx) as N.
+    cbn [own set_main] in N. rewrite mword_set_thread.
+    rewrite (get_set_thread _ _ _ _ t Hx). destruct (Nat.eqb_spec y t) as [->|Ny].
+    + rewrite Ht in Hx. apply Some_inj in Hx. subst thx.
+      exists (set_main th (LockRead k)). six; eauto; try lia.
+      intros j thj Nj E. rewrite get_set_thread_neq in E by congruence. eapply HP; eauto.
+    + exists th. six; eauto; try lia.
+      intros j thj Nj E. rewrite (get_set_thread _ _ _ _ j Hx) in E.
+      destruct (Nat.eqb_spec y j) as [->|Nyj].
+      * apply Some_inj in E. subst thj. apply thP_wake; eauto.
+      * eapply HP; eauto.
+Qed.
+
+Lemma Inv2_upd s0 t th0 th' :
+  get_thread s0 t = Some th0 ->
+  (forall j thj, j <> t -> get_thread s0 j = Some thj -> thP thj) ->
+  thP th' ->
+  (nown s0 + b2n (own th') = b2n (Z.odd (mword s0)) + b2n (own th0))%nat ->
+  Inv2 (set_thread s0 t th').
+Proof.
+  intros Ht Ho Hp Hn. split.
+  - unfold M. rewrite mword_set_thread.
+    pose proof (nown_set_thread s0 t th0 th' Ht). lia.
+  - apply Forall_get. intros j th E. rewrite (get_set_thread _ _ _ _ j Ht) in E.
+    destruct (Nat.eqb_spec t j) as [->|N].
+    + apply Some_inj in E. subst th. exact Hp.
+    + eapply Ho; eauto.
+Qed.
+
+Lemma wake_Inv2 s y s1 : Inv2 s -> wake s y = Some s1 -> Inv2 s1.
+Proof.
+  intros [HM HP] Hw. rewrite Forall_get in HP.
+  apply wake_spec in Hw. destruct Hw as (thx & k & Hx & Hm & ->).
+  apply (Inv2_upd s y thx);
+    [ exact Hx | intros j thj _ E; eapply HP; eauto | apply thP_wake; eauto
+    | unfold M in HM; cbn [own set_main]; lia ].
+Qed.
+
+Lemma Forall_remove_nth {A} (P : A -> Prop) l i : Forall P l -> Forall P (remove_nth l i).
+Proof.
+  intros H. apply Forall_forall. intros x Hx. apply In_remove_nth in Hx.
+  rewrite Forall_forall in H. auto.
+Qed.
+
+Lemma own_false_of_even s t th :
+  M s -> Z.odd (mword s) = false -> get_thread s t = Some th -> own th = false.
+Proof.
+  intros HM Ho Ht. pose proof (nown_own_le s t th Ht) as Le. unfold M in HM.
+  rewrite Ho in HM. cbn [b2n] in HM. destruct (own th); auto. cbn [b2n] in Le. lia.
+Qed.
+
+Ltac npre0 :=
+  try match goal with
+  | L : (1 <= ?n)%nat -> false = true |- _ =>
+      assert (n = 0%nat) by (destruct n; [reflexivity | exfalso; assert (false = true) by (apply L; lia); discriminate])
+  end.
+
+Ltac forall_goal :=
+  repeat first [ apply Forall_app; split | apply Forall_upd | apply Forall_remove_nth
+               | apply Forall_cons | apply Forall_nil ]; cbn [enq_cond]; eauto.
+
+Ltac thP_goal :=
+  constructor; th_simp;
+  try match goal with Hm : main _ = _ |- _ => rewrite Hm in * end;
+  try match goal with Hb : own _ = _ |- _ => rewrite Hb in * end;
+  th_simp; cbn [cas_even preclear b2n] in *; npre0;
+  [ auto | try lia | try (intros; reflexivity); try (intros; lia) | forall_goal ].
+
+Lemma wake_other s y s1 t th :
+  wake s y = Some s1 -> get_thread s t = Some th -> (forall k, main th <> Susp k) ->
+  get_thread s1 t = Some th.
+Proof.
+  intros Hw Ht Hn. apply wake_spec in Hw. destruct Hw as (thx & k & Hx & Hm & ->).
+  rewrite (get_set_thread _ _ _ _ t Hx). destruct (Nat.eqb_spec y t) as [->|N]; auto.
+  rewrite Ht in Hx. apply Some_inj in Hx. subst thx. exfalso. eapply Hn; eauto.
+Qed.
+
+Lemma nown_set_mword s w : nown (set_mword s w) = nown s. Proof. reflexivity. Qed.
+Lemma nown_set_festat s w : nown (set_festat s w) = nown s. Proof. reflexivity. Qed.
+
+Lemma b2n_le1 b : (b2n b <= 1)%nat. Proof. destruct b; cbn; lia. Qed.
+
+Ltac cas_subst :=
+  repeat match goal with
+  | H : (mword ?s =? ?w) = true |- _ => apply Z.eqb_eq in H; subst w
+  end.
+
+Lemma Inv2_step s a s' : Inv2 s -> step s a = Some s' -> Inv2 s'.
+Proof.
+  intros HI Hs. pose proof HI as [HM HP]. rewrite Forall_get in HP.
+  destruct a as [t e]. destruct e.
+  - step_inv' Hs. all: fin Hs.
+    all: match goal with H : get_thread ?s ?t = Some ?th0 |- Inv2 (set_thread ?s ?t _) =>
+           pose proof (HP _ _ H) as [E T L Q];
+           apply (Inv2_upd s t th0);
+           [ exact H | intros j thj _ Ej; eapply HP; eauto | |
+             unfold M in HM; cbn [own set_main add_cb set_cbs]; try lia ] end.
+    all: try thP_goal.
+  - step_inv' Hs. all: fin Hs.
+    all: cas_subst.
+    all: try match goal with k : after_sig |- _ => destruct k end.
+    (* wake leaves *)
+    all: try match goal with
+         | Hw : wake ?s ?y = Some ?s1, Ht : get_thread ?s ?t = Some ?th, H1 : get_thread ?s1 ?t = Some ?t1 |- _ =>
+           pose proof (wake_Inv2 _ _ _ HI Hw) as [HM1 HP1]; rewrite Forall_get in HP1;
+           let Hx := fresh "Hx" in
+           assert (Hx : get_thread s1 t = Some th) by (eapply wake_other; eauto; intros; congruence);
+           rewrite Hx in H1; apply Some_inj in H1; subst t1;
+           pose proof (HP1 _ _ Hx) as [E T L Q];
+           apply (Inv2_upd s1 t th);
+           [ exact Hx | intros j thj _ Ej; eapply HP1; exact Ej | | unfold M in HM1; cbn [own set_main]; lia ]
+         end.
+    all: try match goal with |- Inv2 _ => unify_thread end.
+    all: try match goal with
+         | Hu : ustep ?s ?t ?u = Some (?s1, ?r), Ht : get_thread ?s ?t = Some ?th |- _ =>
+           pose proof (HP _ _ Ht) as [E T L Q];
+           let Ho := fresh "Ho" in
+           assert (Ho : preclear u = true -> own th = true)
+             by (intros Hpc; unfold npre in T;
+                 match goal with Hm : main th = _ |- _ => rewrite Hm in T end;
+                 cbn [mtok] in T; rewrite Hpc in T;
+                 destruct (own th); [reflexivity | cbn [b2n] in T; lia]);
+           destruct (ustep_Inv2 s t u s1 r th HI Ht Ho Hu) as (th1 & Hth1 & Hcbs1 & Hmain1 & Hown1 & HM1 & HP1);
+           match goal with H1 : get_thread s1 t = Some ?t1 |- Inv2 (set_thread _ _ (set_main ?t1 _)) =>
+             rewrite Hth1 in H1; apply Some_inj in H1; subst t1 end;
+           destruct Hmain1 as [Hmain1|(k1 & Hk1 & Hk2)]; [|congruence];
+           apply (Inv2_upd s1 t th1);
+           [ exact Hth1 | exact HP1 | | unfold M in HM1; cbn [own set_main]; lia ]
+         end.
+    all: try match goal with
+         | H : get_thread ?s ?t = Some ?th0 |- Inv2 (set_thread ?s0 ?t _) =>
+           pose proof (HP _ _ H) as [E T L Q];
+           try (match goal with Hm : main th0 = _ |- _ => rewrite Hm in E end; cbn [cas_even] in E);
+           apply (Inv2_upd s0 t th0);
+           [ exact H | intros j thj _ Ej; eapply HP; exact Ej | |
+             unfold M in HM; cbn [own set_main set_own add_cb set_cbs mword set_mword set_festat];
+             rewrite ?nown_set_mword, ?nown_set_festat, ?nown_setq, ?mword_setq ]
+         end.
+    all: try match goal with
+         | Ev : Z.even (mword ?s) = true, Ht : get_thread ?s ?t = Some ?th |- _ =>
+           pose proof (own_false_of_even s t th HM (odd_of_even _ Ev) Ht) as Hof;
+           pose proof (odd_of_even _ Ev) as Hod; pose proof (odd_even_succ _ Ev) as Hsu
+         end.
+    all: try thP_goal.
+    all: try (rewrite ?Hcbs1 in *; unfold rpre, upre in *;
+              destruct Hown1 as [[Ho1 Hr]|(Ho1 & Hr & Hu1)]; rewrite ?Ho1 in *; cbn [b2n] in *;
+              first [lia | (intros; lia) | assumption]).
+    all: rewrite ?odd_add2 in *.
+    all: try lia.
+    all: try (apply even_not_odd; assumption).
+    all: try (rewrite ?Hof, ?Hsu in *; rewrite ?Hod in *; cbn [b2n] in *; lia).
+  - step_inv' Hs. all: fin Hs.
+    all: try match goal with |- context [setq _ ?q _] => destruct q end.
+    all: try match goal with
+         | Hu : ustep ?s ?t ?u = Some (?s1, ?r), Ht : get_thread ?s ?t = Some ?th,
+           Hn : nth_error (cbs ?th) ?i = Some (CbUnl ?u) |- _ =>
+           pose proof (HP _ _ Ht) as [E T L Q];
+           pose proof (lsum_nth_le pre_cb _ _ _ Hn) as Hle; cbn [pre_cb] in Hle;
+           let Ho := fresh "Ho" in
+           assert (Ho : preclear u = true -> own th = true)
+             by (intros Hpc; unfold npre in T; rewrite Hpc in Hle;
+                 destruct (own th); [reflexivity | cbn [b2n] in *; lia]);
+           destruct (ustep_Inv2 s t u s1 r th HI Ht Ho Hu) as (th1 & Hth1 & Hcbs1 & Hmain1 & Hown1 & HM1 & HP1);
+           match goal with H1 : get_thread s1 t = Some ?t1 |- Inv2 (set_thread _ _ (set_cbs ?t1 _)) =>
+             rewrite Hth1 in H1; apply Some_inj in H1; subst t1 end;
+           rewrite <- Hcbs1 in Hn;
+           apply (Inv2_upd s1 t th1);
+           [ exact Hth1 | exact HP1 | | unfold M in HM1; cbn [own set_cbs]; lia ]
+         end.
+    all: try match goal with
+         | H : get_thread ?s ?t = Some ?th0 |- Inv2 (set_thread ?s0 ?t _) =>
+           pose proof (HP _ _ H) as [E T L Q];
+           apply (Inv2_upd s0 t th0);
+           [ exact H | intros j thj _ Ej; eapply HP; exact Ej | |
+             unfold M in HM; cbn [own set_cbs mword setq]; try lia ]
+         end.
+    all: try (unfold nown in *; cbn [thr] in *; lia).
+    all: cbs_pose pre_cb; cbn [pre_cb preclear b2n] in *.
+    all: try (destruct Hmain1 as [Hmain1|(k1 & Hk1 & Hk2)];
+              destruct Hown1 as [[Ho1 Hr]|(Ho1 & Hr & Hu1)]; unfold rpre, upre in * ).
+    all: constructor; unfold npre, set_cbs in *; cbn [main cbs own] in *.
+    all: rewrite ?Hcbs1, ?Hmain1, ?Hk2, ?Ho1 in *; try rewrite Hk1 in *; cbn [cas_even mtok lockpath b2n] in *.
+    all: try assumption; try exact I; try lia; try (intros; reflexivity); try (intros; apply L; lia).
+    all: try forall_goal.
+    all: try match goal with T : (_ <= b2n ?b)%nat |- _ => pose proof (b2n_le1 b); lia end.
+  - step_inv' Hs. fin Hs.
+    match goal with
+    | H : get_thread ?s ?t = Some ?th0 |- Inv2 (set_thread ?s ?t _) =>
+        pose proof (HP _ _ H) as [E T L Q];
+        apply (Inv2_upd s t th0);
+        [ exact H | intros j thj _ Ej; eapply HP; exact Ej | | unfold M in HM; cbn [own set_main]; lia ]
+    end.
+    unfold ret_ok in *. rewrite Heqo in *.
+    constructor; unfold npre, set_main in *; cbn [main cbs own cas_even mtok lockpath] in *; auto.
+    + lia.
+    + intros Hn. specialize (L Hn). destruct (main t0); cbn in *; discriminate.
+Qed.
+
+Lemma Inv2_init s : init s -> Inv2 s.
+Proof.
+  intros (nt & nc & ->). split.
+  - unfold M, nown, init_state; cbn [thr mword]. rewrite lsum_repeat0; reflexivity.
+  - unfold init_state; cbn [thr]. apply Forall_forall. intros th Hin.
+    apply repeat_spec in Hin. subst th. constructor; cbn; auto. intros; lia.
+Qed.
+
+Theorem Inv2_reach s : reach s -> Inv2 s.
+Proof. apply invariant_rule; [exact Inv2_init | intros s0 a s1; apply Inv2_step]. Qed.
